@@ -32,7 +32,23 @@ def build(ctx, i):
                               kinds=["sim", "sim", "inferred", "handmade", "missing", "recurrent"])
         if not common.discrete_ok(ts):
             ts, r = zoo.sim(rng)
+    unary = False
+    if i % 8 == 5:
+        # an input that keeps unary nodes, dated with allow_unary=True (second pass of the span tables)
+        full, r2 = zoo.sim(rng, n=int(rng.integers(6, 14)), L=1e3, mut_per_edge=3.0,
+                           rec=float(rng.choice([4.0, 12.0])) / (4 * 100.0 * 1e3), Ne=100.0)
+        sub = np.sort(rng.choice(full.samples(), size=max(2, full.num_samples // 2), replace=False))
+        cand = full.simplify(sub, keep_unary=True)
+        if cand.num_mutations > 0:
+            ts, r, unary = cand, dict(r2, gen="kept_unary"), True
+        if (i // 8) % 2 == 0:
+            # a chain of unary nodes below a unary root that coalesces elsewhere (spans are lent)
+            cand, r2 = zoo.unary_chain(rng)
+            if cand.num_mutations > 0:
+                ts, r, unary = cand, r2, True
     kw = {"mutation_rate": common.default_mu(ts, r)}
+    if unary:
+        kw["allow_unary"] = True
     mbl = [None, 1e-8, 1e-3, 1.0, 30.0][int(rng.integers(5))]
     if mbl is not None:
         kw["min_branch_length"] = mbl
@@ -46,7 +62,7 @@ def build(ctx, i):
         kw["probability_space"] = str(rng.choice(["linear", "logarithmic"]))
         if rng.random() < 0.5:
             kw["eps"] = float(10 ** rng.uniform(-9, -2))
-        mode = int(rng.integers(3))
+        mode = 0 if unary else int(rng.integers(3))
         if mode == 0:
             kw["population_size"] = Ne
         elif mode == 1:
@@ -91,6 +107,8 @@ def case(ctx, i, rec):
     if i < 3:
         rec.sample = dict(recipe=r, method=method, kw={k: repr(v) for k, v in kw.items()},
                           factors=[cs[0][0], cs[1][0]])
+    if kw.get("allow_unary"):
+        rec.count("inputs_with_unary_nodes")
     if a.exc is not None:
         rec.count("base_no_return")
         rec.count("no_return:" + common.exc_key(a.exc)[:70])
